@@ -301,8 +301,9 @@ class MarkdownRenderer(BaseRenderer):
     ) -> Iterable[str]:
         indentation = " " * token.indentation
         yield indentation + token.delimiter + token.info_string
+        # note: an empty code block has no content lines at all, not a single empty one.
         yield from self.prefix_lines(
-            token.content[:-1].split("\n"), indentation
+            token.content[:-1].split("\n") if token.content else [], indentation
         )
         yield indentation + token.delimiter
 
@@ -506,7 +507,9 @@ class MarkdownRenderer(BaseRenderer):
                 is_first_line = False
             else:
                 prefixed = following_line_prefix + line
-            yield prefixed if not prefixed.isspace() else ""
+            # a prefix made of spaces is dropped in front of an empty line, but a line that
+            # itself consists of whitespace (inside a code block) is content and is kept.
+            yield prefixed if line or not prefixed.isspace() else ""
 
     def table_row_to_text(self, row) -> Sequence[str]:
         """
